@@ -279,8 +279,12 @@ def _sign_train(cfg, base, y, redraw):
     xc = xb[:, ch]
     if not np.isfinite(col).all():
       zero = bool(np.all(xc == 0))
+      # TF CPU kernels flush float32 denormals to zero: a channel whose largest
+      # magnitude is below the smallest normal is a zero channel for 2*max|x|
+      denorm = bool(np.max(np.abs(xc)) < 1.1754944e-38)
       fails.append(("train_nonfinite",
-                    {"clause": "nonfinite", "cause": "zero_channel" if zero else "other"},
+                    {"clause": "nonfinite", "cause": "zero_channel" if zero else
+                     ("denormal_channel" if denorm else "other")},
                     "channel %r -> %r" % (list(xc[:6]), np.unique(col[~np.isfinite(col)])[:3]),
                     elem(0, ch)))
       continue
